@@ -295,6 +295,15 @@ def mk_inc(j):
 def job_corr(j):
     """construct a raw / incomplete correlation (or fetch a library group's)
     and evaluate it"""
+    for w_ in j.get('warm', []):
+        # ANOTHER correlation with the same table but another reference temperature was evaluated at these temperatures first
+        try:
+            with warnings.catch_warnings(record=True):
+                warnings.simplefilter('always')
+                o_ = mk_raw(w_) if w_['cls'] == 'raw' else mk_inc(w_)
+                eval_props(o_, j['evalTs'], ('s', 'h'))
+        except Exception:
+            pass
     try:
         with warnings.catch_warnings(record=True):
             warnings.simplefilter('always')
@@ -403,6 +412,7 @@ def job_update_seq(j):
     except Exception as e:
         return {'exc': exc_name(e)}
     out = []
+    init_state = snap(cur)
     for st in j['steps']:
         try:
             other = mk_inc(st['other'])
@@ -452,7 +462,7 @@ def job_update_seq(j):
         except Exception as e:
             r['self_vals'] = {'exc': exc_name(e)}
         out.append(r)
-    return {'steps': out}
+    return {'steps': out, 'init_state': init_state}
 
 
 def job_lib_updates(j):
